@@ -1041,8 +1041,8 @@ func TestVerif_C10(t *testing.T) {
 	}
 	r.Require("server_conservation_checks", q(2500, 15000))
 	r.Require("client_conservation_checks", q(2500, 15000))
-	r.Require("server_final_checks", q(120, 700))
-	r.Require("client_final_checks", q(120, 700))
+	r.Require("server_final_checks", q(70, 450))
+	r.Require("client_final_checks", q(70, 450))
 	r.Require("server_checks_with_buffered_body_bytes", q(500, 3000))
 	r.Require("client_checks_with_buffered_body_bytes", q(500, 3000))
 	r.Require("server_checks_with_batched_credit", q(300, 2000))
